@@ -47,6 +47,13 @@ func RunC20(t *Trace, st *Stats) *Violation {
 	sim.CurrentFS = env.FS
 	sink := sim.NewSink()
 	wadisk := sim.NewDisk("stream-with-writerat")
+	var preexisting []byte
+	if !stream && !streamWA && t.Extra != nil && t.Extra["preexisting"] == true {
+		// the path already names a (longer) file when the writer is constructed
+		preexisting = NewRng(4242).Bytes(5000)
+		env.SetDisk(sim.FromBytes(env.Path, preexisting))
+		env.FS.Creates = 0
+	}
 	var dw *deferred.DeferredCarWriter
 	switch {
 	case stream:
@@ -96,6 +103,7 @@ func RunC20(t *Trace, st *Stats) *Violation {
 		once bool
 	}
 	var regs []reg
+	var duringPut []reg // listeners registered from inside a listener while the current Put runs
 	var log []cbEvent
 	nextID := 0
 	started := false // a Put has been attempted on an open writer
@@ -110,8 +118,20 @@ func RunC20(t *Trace, st *Stats) *Violation {
 			id := nextID
 			nextID++
 			once := op.Arg%2 == 1
+			nested := op.Arg >= 2 // a listener that registers another listener the first time it fires
 			regs = append(regs, reg{id, once})
-			if pv := safeCall(func() { dw.OnPut(func(n int) { log = append(log, cbEvent{id, n}) }, once) }); pv != nil {
+			fired := false
+			cb := func(n int) {
+				log = append(log, cbEvent{id, n})
+				if nested && !fired {
+					fired = true
+					child := nextID
+					nextID++
+					duringPut = append(duringPut, reg{child, false})
+					dw.OnPut(func(n int) { log = append(log, cbEvent{child, n}) }, false)
+				}
+			}
+			if pv := safeCall(func() { dw.OnPut(cb, once) }); pv != nil {
 				return viol("deferred/panic/onput", "OnPut panicked: %v", pv)
 			}
 		case "has":
@@ -195,6 +215,15 @@ func RunC20(t *Trace, st *Stats) *Violation {
 			}
 			regs = keep
 			got := log[before:]
+			// listeners registered while this Put ran: whether they already fire for this Put is not
+			// specified (both accepted); from the next Put on they fire like any other
+			if len(got) == len(want)+len(duringPut) {
+				for _, r := range duringPut {
+					want = append(want, cbEvent{r.id, len(b.Data)})
+				}
+			}
+			regs = append(regs, duringPut...)
+			duringPut = nil
 			if len(got) != len(want) {
 				return viol("deferred/callbacks/count", "op #%d Put invoked %d callbacks %v, want %d %v", i, len(got), got, len(want), want)
 			}
@@ -248,6 +277,12 @@ func RunC20(t *Trace, st *Stats) *Violation {
 			if (stream && sink.WriteCalls != 0) || (streamWA && wadisk.WriteCalls != 0) {
 				return viol("deferred/not-lazy/stream-written", "after op #%d %s the stream has received %d writes although no Put happened yet", i, op.Kind, sink.WriteCalls+wadisk.WriteCalls)
 			}
+			if !stream && !streamWA && preexisting != nil {
+				if d := env.Disk(); d == nil || d.WriteCalls != 0 || d.TruncCalls != 0 || !bytes.Equal(tb, preexisting) {
+					return viol("deferred/not-lazy/file-touched", "after op #%d %s the file that was at the path before has been touched although no Put happened yet", i, op.Kind)
+				}
+				continue
+			}
 			if !stream && !streamWA && (exists || env.FS.Creates != 0) {
 				return viol("deferred/not-lazy/file-created", "after op #%d %s the output file exists although no Put happened yet", i, op.Kind)
 			}
@@ -286,7 +321,7 @@ func GenC20(seed uint64, run int) *Trace {
 	for i := 0; i < n; i++ {
 		switch v := r.Intn(100); {
 		case v < 25:
-			t.Ops = append(t.Ops, Op{Kind: "onput", Arg: r.Intn(2)})
+			t.Ops = append(t.Ops, Op{Kind: "onput", Arg: Pick(r, []int{0, 1, 0, 1, 2})})
 		case v < 45:
 			t.Ops = append(t.Ops, Op{Kind: "has", Blks: []BlkSpec{Pick(r, alpha)}})
 		case v < 80:
@@ -298,6 +333,12 @@ func GenC20(seed uint64, run int) *Trace {
 		default:
 			t.Ops = append(t.Ops, Op{Kind: "close"})
 		}
+	}
+	if target == "path" && r.Chance(1, 5) {
+		if t.Extra == nil {
+			t.Extra = map[string]any{}
+		}
+		t.Extra["preexisting"] = true // the path names an existing, longer file
 	}
 	if r.Chance(1, 3) {
 		if t.Extra == nil {
